@@ -11,6 +11,10 @@
                   Helper calls it cannot follow are collected in `unfollowed`.
   HelperGraph     who references which private method of a class (absorption of extracted helpers
                   into the anchored functions for who-may-call rules).
+  rebound_after   which free variables of a closure are bound again after the closure was created
+                  (late binding), decided on the CFG of the function owning the variable; with
+                  scope_nodes / binding_sites / scope_chain / closure_reads.
+  fold_callback_defaults   default arguments of a done-callback (bound at creation) moved into its body.
   splice          whole-source replacement of AST nodes by text (structural in-memory controls).
 """
 from __future__ import annotations
@@ -314,6 +318,7 @@ class Walk:
         self.spliced: set[str] = set(getattr(self.tree, "_spliced", ()))
         desugar_match(self.tree)
         hoist_walrus(self.tree)
+        fold_callback_defaults(self.tree)
         self.ex = FollowExec(prog, fn, anchors=anchors)
         try:
             self.paths = self.ex.function_paths(self.tree)
@@ -414,6 +419,191 @@ def callback_target(cb: ast.AST, nested: dict[str, ast.FunctionDef],
             return self_attr(stmts[0].value.func)
         return None
     return self_attr(cb)
+
+
+# --------------------------------------------------------------------------------------------- closures
+_FUNCS = (ast.FunctionDef, ast.AsyncFunctionDef)
+_SCOPES = (ast.FunctionDef, ast.AsyncFunctionDef, ast.Lambda)
+_COMPS = (ast.ListComp, ast.SetComp, ast.DictComp, ast.GeneratorExp)
+
+
+def scope_nodes(scope: ast.AST) -> list[ast.AST]:
+    """The nodes that are evaluated in the scope of a function / lambda itself: its body without the
+    bodies of nested functions, lambdas and classes (their defaults / decorators / bases are evaluated
+    here and do belong to it) and without the targets of comprehensions (a scope of their own)."""
+    out: list[ast.AST] = []
+
+    def walk(n: ast.AST) -> None:
+        out.append(n)
+        if isinstance(n, _FUNCS):
+            for x in n.decorator_list + n.args.defaults + [d for d in n.args.kw_defaults if d is not None]:
+                walk(x)
+        elif isinstance(n, ast.Lambda):
+            for x in n.args.defaults + [d for d in n.args.kw_defaults if d is not None]:
+                walk(x)
+        elif isinstance(n, ast.ClassDef):
+            for x in n.decorator_list + n.bases + [k.value for k in n.keywords]:
+                walk(x)
+        elif isinstance(n, _COMPS):
+            for g in n.generators:
+                walk(g.iter)
+                for i in g.ifs:
+                    walk(i)
+            for x in ([n.key, n.value] if isinstance(n, ast.DictComp) else [n.elt]):
+                walk(x)
+        else:
+            for c in ast.iter_child_nodes(n):
+                walk(c)
+
+    for s in (scope.body if isinstance(scope.body, list) else [scope.body]):  # type: ignore[attr-defined]
+        walk(s)
+    return out
+
+
+def _params(scope: ast.AST) -> set[str]:
+    a = scope.args  # type: ignore[attr-defined]
+    return {x.arg for x in a.posonlyargs + a.args + a.kwonlyargs} | {x.arg for x in (a.vararg, a.kwarg) if x is not None}
+
+
+def binding_sites(scope: ast.AST, name: str) -> list[ast.AST]:
+    """The places of `scope` (not of nested scopes) that (re-)bind the local `name`: assignment / loop /
+    with / walrus / del targets, `except ... as name`, nested `def name` / `class name`, imports."""
+    out: list[ast.AST] = []
+    for n in scope_nodes(scope):
+        if isinstance(n, ast.Name) and n.id == name and isinstance(n.ctx, (ast.Store, ast.Del)):
+            out.append(n)
+        elif isinstance(n, ast.ExceptHandler) and n.name == name:
+            out.append(n)
+        elif isinstance(n, (*_FUNCS, ast.ClassDef)) and n.name == name:
+            out.append(n)
+        elif isinstance(n, (ast.Import, ast.ImportFrom)) and any(
+                (a.asname or a.name.split(".")[0]) == name for a in n.names):
+            out.append(n)
+    return out
+
+
+def _binds(scope: ast.AST, name: str) -> bool:
+    declared = {x for n in scope_nodes(scope) if isinstance(n, (ast.Global, ast.Nonlocal)) for x in n.names} \
+        if not isinstance(scope, ast.Lambda) else set()
+    return name not in declared and (name in _params(scope) or bool(binding_sites(scope, name)))
+
+
+def scope_chain(root: ast.AST, target: ast.AST) -> list[ast.AST] | None:
+    """The function / lambda scopes from `root` (a function) down to the one `target` is evaluated in
+    (a nested def is evaluated in its parent's scope: its *name* is bound there)."""
+    def find(scope: ast.AST, chain: list[ast.AST]) -> list[ast.AST] | None:
+        for n in scope_nodes(scope):
+            if n is target:
+                return chain
+        for n in scope_nodes(scope):
+            if isinstance(n, _SCOPES):
+                r = find(n, chain + [n])
+                if r is not None:
+                    return r
+        return None
+
+    return find(root, [root])
+
+
+def closure_reads(closure: ast.AST, within: list[ast.AST] | None = None) -> set[str]:
+    """The free variables of a lambda / nested def (names it reads and does not bind itself); `within`
+    restricts the reads to those below the given sub-expressions."""
+    own = _params(closure) | {n.id for n in scope_nodes(closure)
+                              if isinstance(n, ast.Name) and isinstance(n.ctx, (ast.Store, ast.Del))}
+    roots = within if within is not None else (
+        closure.body if isinstance(closure.body, list) else [closure.body])  # type: ignore[attr-defined]
+    return {n.id for r in roots for n in ast.walk(r)
+            if isinstance(n, ast.Name) and isinstance(n.ctx, ast.Load)} - own
+
+
+def rebound_after(root: ast.AST, closure: ast.AST, names: Iterable[str]) -> list[tuple[str, ast.AST, ast.AST]]:
+    """(variable, scope, re-binding site) for every free variable in `names` of the closure `closure`
+    (somewhere inside the function `root`) that is a local of an enclosing function and is bound again
+    at a point that can execute *after* the closure was created: the closure then sees the later value
+    (Python closes over variables, not values).  Decided on the control-flow graph of the function that
+    owns the variable (loop back-edges and exceptional edges included)."""
+    from ..engine.cfg import CFG
+
+    chain = scope_chain(root, closure)
+    if chain is None:
+        raise AnalysisError(f"{getattr(root, 'name', '?')}: closure at line {getattr(closure, 'lineno', 0)} not located")
+    out: list[tuple[str, ast.AST, ast.AST]] = []
+    cfgs: dict[int, Any] = {}
+    for name in sorted(set(names)):
+        owner_i = next((i for i in range(len(chain) - 1, -1, -1) if _binds(chain[i], name)), None)
+        if owner_i is None:
+            continue                                    # a global / builtin
+        owner = chain[owner_i]
+        if isinstance(owner, ast.Lambda):
+            continue                                    # a lambda's parameter: bound once per call
+        # where the closure comes into being, seen from the owner: the closure itself, or the nested
+        # function it is created in (whose later calls share the owner's variable)
+        made = closure if owner_i == len(chain) - 1 else chain[owner_i + 1]
+        sites = binding_sites(owner, name)
+        if not sites:
+            continue                                    # a parameter that is never assigned
+        if id(owner) not in cfgs:
+            try:
+                cfgs[id(owner)] = CFG(owner)            # type: ignore[arg-type]
+            except AnalysisError as exc:
+                raise AnalysisError(f"{getattr(owner, 'name', '?')}: {exc}") from exc
+        cfg = cfgs[id(owner)]
+        at = set(cfg.node_containing(made))
+        if not at:
+            raise AnalysisError(f"{getattr(owner, 'name', '?')}: creation of the closure at line "
+                                f"{getattr(closure, 'lineno', 0)} not found in the control-flow graph")
+        later = cfg.reachable(at, include_src=False)
+        for s in sites:
+            where = set(cfg.nodes_of(s)) if isinstance(s, (ast.ExceptHandler, *_FUNCS, ast.ClassDef, ast.Import,
+                                                           ast.ImportFrom)) else set(cfg.node_containing(s))
+            # the statement that creates the closure and binds the variable does so after the creation
+            # (`x = f(lambda: x)`), except a def that is the closure
+            if where & later or (where & at and s is not made):
+                out.append((name, owner, s))
+    return out
+
+
+def fold_callback_defaults(tree: ast.AST) -> None:
+    """`t.add_done_callback(lambda t, k=E1, r=E2: body)` -> `t.add_done_callback(lambda t: body[k:=E1, r:=E2])`
+    (in place; also for a one-expression nested def used only as such a callback).  Default values are
+    evaluated when the callable is created, which is exactly how the path walker reads the free names of
+    a lambda body, so the folded form is what the walker should see.  (The late-binding rule reads the
+    original tree.)"""
+    cb_args = [(c.args + [k.value for k in c.keywords])[0] for c in ast.walk(tree)
+               if isinstance(c, ast.Call) and isinstance(c.func, ast.Attribute) and c.func.attr == "add_done_callback"
+               and len(c.args) + len(c.keywords) == 1]
+    defs = {n.name: n for n in ast.walk(tree) if isinstance(n, ast.FunctionDef) and n is not tree}
+    loads: dict[str, int] = {}
+    for n in ast.walk(tree):
+        if isinstance(n, ast.Name) and isinstance(n.ctx, ast.Load):
+            loads[n.id] = loads.get(n.id, 0) + 1
+    todo: list[ast.AST] = [a for a in cb_args if isinstance(a, ast.Lambda)]
+    for name, d in defs.items():
+        uses = sum(1 for a in cb_args if isinstance(a, ast.Name) and a.id == name)
+        body = [x for x in d.body if not (isinstance(x, ast.Expr) and isinstance(x.value, ast.Constant))]
+        if uses and uses == loads.get(name, 0) and not d.decorator_list and len(body) == 1 \
+                and isinstance(body[0], (ast.Expr, ast.Return)) and body[0].value is not None:
+            todo.append(d)
+    for f in todo:
+        a = f.args  # type: ignore[attr-defined]
+        if a.vararg or a.kwarg or not (a.defaults or a.kwonlyargs) or any(d is None for d in a.kw_defaults):
+            continue
+        pos = a.posonlyargs + a.args
+        n_plain = len(pos) - len(a.defaults)
+        env = {p.arg: d for p, d in zip(pos[n_plain:], a.defaults)}
+        env.update({p.arg: d for p, d in zip(a.kwonlyargs, a.kw_defaults)})
+        # a default that reads a name the callable's remaining parameters shadow cannot be moved into the body
+        keep = {p.arg for p in pos[:n_plain]}
+        if any(isinstance(x, ast.Name) and x.id in keep for d in env.values() for x in ast.walk(d)):
+            continue
+        sub = _Subst(env)
+        if isinstance(f, ast.Lambda):
+            f.body = sub.visit(f.body)
+        else:
+            f.body = [sub.visit(s) for s in f.body]  # type: ignore[attr-defined]
+        f.args = ast.arguments(posonlyargs=[], args=[ast.arg(arg=p.arg) for p in pos[:n_plain]],  # type: ignore[attr-defined]
+                               kwonlyargs=[], kw_defaults=[], defaults=[])
+    ast.fix_missing_locations(tree)
 
 
 # ---------------------------------------------------------------------------------------------
